@@ -162,6 +162,30 @@ func c20StringTests() []strTest {
 			return s.Match(rx)
 		}, pred, false})
 	}
+	// patterns that are a literal between anchors (or a literal with one anchor): equality / prefix / suffix, never "contains"
+	for _, lp := range []struct {
+		re   string
+		pred func(v string) bool
+	}{
+		{"^a9$", func(v string) bool { return v == "a9" }},
+		{`\Aaz\z`, func(v string) bool { return v == "az" }},
+		{`^a\.z$`, func(v string) bool { return v == "a.z" }},
+		{"^(?:9)$", func(v string) bool { return v == "9" }},
+		{"(?s)^a$", func(v string) bool { return v == "a" }},
+		{"^$", func(v string) bool { return v == "" }},
+		{"^a", func(v string) bool { return strings.HasPrefix(v, "a") }},
+		{"z$", func(v string) bool { return strings.HasSuffix(v, "z") }},
+		{"a9", func(v string) bool { return strings.Contains(v, "a9") }},
+	} {
+		lp := lp
+		rx := regexp.MustCompile(lp.re)
+		ts = append(ts, strTest{fmt.Sprintf("Match(%s)", lp.re), "match", func(s *z.StringSchema[string], not bool) *z.StringSchema[string] {
+			if not {
+				return s.Not().Match(rx)
+			}
+			return s.Match(rx)
+		}, lp.pred, false})
+	}
 	return ts
 }
 
